@@ -7,6 +7,7 @@
 -/
 import Cobweb.Proofs.Kill
 import Cobweb.Proofs.Once
+import Cobweb.Proofs.Dead
 import Cobweb.Theorems.C13
 import Cobweb.Theorems.C07
 
@@ -71,6 +72,22 @@ theorem tail_despawns_and_revokes (s : St) (sys : Nat) (trigs : List Trig) (ho :
     · rename_i h; simpa using h
   · simp [doOnceTail, St.push, ho]
   · simp [doOnceTail, St.push]
+
+/-- **... and it is gone for good** (every execution): from the step that runs the tail of a one-off reactor on, the
+    reactor's entity is dead in every later state — ids are never reused (`Proofs/Dead.lean`) — so by
+    `dead_once_never_runs` no later trigger, in the same tree or any later one, runs it. -/
+theorem once_gone_for_good {p : Prog} {h : Hist} {s s1 s' : St} (sys : Nat) (rest : List Frame)
+    (hs : s.stack = .onceTail sys :: rest) (hx : sys < s.nextEnt) (h1 : step p h s = some s1) (hr : Reach p h s1 s') :
+    s'.alive sys = false := by
+  have e1 : s1 = doOnceTail { s with stack := rest } sys := by
+    unfold step at h1; rw [hs] at h1; simp only [Option.some.injEq] at h1; exact h1.symm
+  have hd : s1.alive sys = false := by
+    rw [e1]
+    simp only [doOnceTail, St.push]
+    exact despawn1_dead _ sys
+  have hn : sys < s1.nextEnt := by
+    rw [e1]; simpa [doOnceTail, St.push] using hx
+  exact dead_stays_dead hr sys hn hd
 
 /-- A dead reactor is never run (C18): every later trigger of a one-off reactor that has run aborts at lookup. -/
 theorem dead_once_never_runs (s : St) (sys idx : Nat) (k : Kind) (h : s.alive sys = false) :
